@@ -13,4 +13,8 @@ unset GOTOOLCHAIN GOSUMDB
   echo "replace github.com/PowerDNS/lightningstream => $REPO"
 } > go.mod
 cp "$REPO/go.sum" go.sum
-go build -tags verif -o lsverif . 
+go build -tags verif -o lsverif .
+# the race-detector build is only needed by the supporting stress of C17 (area conc-race)
+if [ "$VERIF_BUILD_RACE" = "1" ]; then
+  go build -race -tags verif -o lsverif_race .
+fi
